@@ -26,6 +26,7 @@ def units(tier, seed):
     # wide graphs (p = 10, node indices >= 8): every PDAG with <= 2 edges and targeted colliders
     out += [{"stage": "pdag", "p": _g.WIDE_P, "codes": c, "light": True} for c in split_list(_g.wide_sparse_codes("pdag"), 32)]
     out.append({"stage": "wide-targeted"})
+    out.append({"stage": "big"})         # 70 nodes, edges on node indices >= 64
     return out
 
 
@@ -148,6 +149,10 @@ def build(p, code, lab):
         A = _g.pdag_matrix(p, ch, und)
     elif lab == "pdagF":
         A = np.asfortranarray(_g.pdag_matrix(p, ch, und))
+    elif lab in _g.WPDAG_LABS:
+        if not any(und):
+            return None
+        A = _g.weighted_pdag(p, ch, und, lab)
     else:
         if any(und):
             return None
@@ -187,8 +192,23 @@ def run_unit(unit):
                 for sig, msg in fails:
                     acc.fail("wide", {"k": k, "lab": lab}, sig, msg)
         return acc.out()
+    if unit["stage"] == "big":
+        p = _g.BIG_P
+        for k, (name, ch, und) in enumerate(_g.big_graphs()):
+            for lab in ("pdag",) + (() if any(und) else ("generic", "tiny")):
+                A = _g.pdag_matrix(p, ch, und) if lab == "pdag" else _g.np_dag(p, ch, lab)
+                fails, n = check_graph(p, ch, und, A, "single")
+                acc.states += 1
+                acc.transitions += n
+                acc.traces += 1
+                acc.nontrivial += 1
+                acc.extra["big_p70"] += 1
+                acc.outcome(["big", k, lab])
+                for sig, msg in fails:
+                    acc.fail("big", {"k": k, "lab": lab}, sig, msg)
+        return acc.out()
     p = unit["p"]
-    labs = (("pdag", "pdagF") if unit["p"] <= 3 else ("pdag",)) if unit["stage"] == "pdag" else ("neg", "cancel", "generic", "int")
+    labs = (("pdag", "pdagF") if unit["p"] <= 3 else ("pdag",)) if unit["stage"] == "pdag" else ("neg", "cancel", "generic", "int", "tiny")
     codes = unit["codes"] if "codes" in unit else range(unit["lo"], unit["hi"])
     mode = sep_mode_for(p, _TIER[0], unit.get("light"))
     for code in codes:
@@ -219,6 +239,10 @@ def run_unit(unit):
 
 
 def replay(kind, case):
+    if kind == "big":
+        name, ch, und = _g.big_graphs()[case["k"]]
+        A = _g.pdag_matrix(_g.BIG_P, ch, und) if case["lab"] == "pdag" else _g.np_dag(_g.BIG_P, ch, case["lab"])
+        return check_graph(_g.BIG_P, ch, und, A, "single")[0]
     if kind == "wide":
         ch = _g.wide_targeted()[case["k"]]
         return check_graph(_g.WIDE_P, ch, [0] * _g.WIDE_P, _g.np_dag(_g.WIDE_P, ch, case["lab"]), "single")[0]
@@ -232,7 +256,7 @@ def describe(tier, seed):
     return {
         "technique": "exhaustive small-scope enumeration of PDAGs, nodes, node pairs and node-set triples on the real code vs bitset/recursive oracles",
         "rule": "every PDAG with acyclic directed part p<=4 (binary) and every DAG p<=4 under neg/cancel/generic/int weights and every +-1 sign assignment (thorough: + 5-node PDAGs "
-                "with <=5 edges); wide graphs: every 10-node PDAG with <=2 edges and 80 targeted colliders mixing node indices below and above 8; per graph: pa, ch, neighbors, adj, ancestors, an, descendants, desc, chain_component for every node, na and "
+                "with <=5 edges); 7 graphs on 70 nodes whose edges sit on node indices >= 64 (collider, chains, fork, PDAGs with and without extension); wide graphs: every 10-node PDAG with <=2 edges and 80 targeted colliders mixing node indices below and above 8; per graph: pa, ch, neighbors, adj, ancestors, an, descendants, desc, chain_component for every node, na and "
                 "semi_directed_paths for every ordered pair, transitive_closure (ValueError iff undirected edges), separates for every assignment "
                 "of the nodes to subsets of {S,A,B} (p<=3, overlapping => ValueError), every disjoint (S,A,B) with singleton A,B at p=4 (quick) / "
                 "every disjoint triple (thorough); non-trivial: >= 2 edges",
